@@ -280,7 +280,13 @@ pub mod pipeline {
             // after we match (staying as Vec<u8> until then)
             let mut line = Vec::with_capacity(1024);
             loop {
-                let ct = buf.read_until(b'\n', &mut line).unwrap();
+                let ct = match buf.read_until(b'\n', &mut line) {
+                    Ok(ct) => ct,
+                    Err(e) => {
+                        eprintln!("error: {}", e);
+                        break;
+                    }
+                };
                 if ct == 0 {
                     break;
                 }
